@@ -583,13 +583,13 @@ impl Size {
     /// Check if size is zero in any dimension
     #[inline]
     pub fn is_empty(&self) -> bool {
-        self.height * self.width == 0
+        self.height == 0 || self.width == 0
     }
 
     /// Get size area
     #[inline]
     pub fn area(&self) -> usize {
-        self.width * self.height
+        self.width.saturating_mul(self.height)
     }
 
     /// Expand/Contract size to bigger than `min` and smaller than `max` size
